@@ -367,3 +367,48 @@ func StoredNeighbours(m *big.Int) []*big.Int {
 
 	return out
 }
+
+// EndoScalars returns the scalars at which addition formulas that are not complete degenerate on secp256k1 inside a
+// multiplication. The curve has the endomorphism (x, y) -> (beta x, y) = [lambda](x, y), so for every point P the
+// points -[lambda]P and -[lambda^2]P have the opposite y and a DIFFERENT x: "y1 + y2 = 0 only when Q = -P" is false,
+// and unified or Jacobian formulas that rely on it return garbage for exactly these pairs. A multiplication adds such
+// a pair when an accumulated multiple j and the addend d satisfy j = -lambda^e d (mod n): window methods at
+// k = d (1 - lambda^e) with the last digit d, ladders and double-and-add at prefixes lambda^e, -lambda^e / 2, ...
+// The members: +- d b / 2^i mod n for b in {lambda, lambda^2, 1 - lambda, 1 - lambda^2}, d up to the digit bound,
+// i up to the shift bound. lambda is the cube root of unity mod n that matches beta in ref (checked by the caller's
+// oracle: wrong results would show as violations on the unchanged tree).
+func EndoScalars(maxDigit, maxShift int) []*big.Int {
+	lambda, _ := new(big.Int).SetString("5363ad4cc05c30e0a5261c028812645a122e22ea20816678df02967c1b23bd72", 16)
+	lambda2 := ref.Mod(new(big.Int).Mul(lambda, lambda), ref.N)
+	one := big.NewInt(1)
+
+	if ref.Mod(new(big.Int).Mul(lambda2, lambda), ref.N).Cmp(one) != 0 {
+		panic("alpha: lambda is not a cube root of unity mod n")
+	}
+
+	bases := []*big.Int{lambda, lambda2, ref.Mod(new(big.Int).Sub(one, lambda), ref.N), ref.Mod(new(big.Int).Sub(one, lambda2), ref.N)}
+	set := map[string]*big.Int{}
+	half := new(big.Int).ModInverse(big.NewInt(2), ref.N)
+
+	for _, b := range bases {
+		for d := 1; d <= maxDigit; d++ {
+			v := ref.Mod(new(big.Int).Mul(b, big.NewInt(int64(d))), ref.N)
+
+			for i := 0; i <= maxShift; i++ {
+				set[v.Text(16)] = v
+				neg := ref.Mod(new(big.Int).Neg(v), ref.N)
+				set[neg.Text(16)] = neg
+				v = ref.Mod(new(big.Int).Mul(v, half), ref.N)
+			}
+		}
+	}
+
+	out := make([]*big.Int, 0, len(set))
+	for _, v := range set {
+		out = append(out, v)
+	}
+
+	sort.Slice(out, func(i, j int) bool { return out[i].Cmp(out[j]) < 0 })
+
+	return out
+}
